@@ -205,6 +205,14 @@ macro_rules! hue_monitors {
                 m.evals(2);
                 let worst = es.max(ep).max(cs).max(cp);
                 m.dev(worst, || json!({"x": x, "signed": s, "unsigned": p, "hue": hname}));
+                // the signed normal form read out through `From<Hue<f64>>`: as f64 it is into_degrees itself, as f32 it is that
+                // value rounded to f32 (congruence within one f32 rounding of the normal form, not of the stored angle)
+                let g: f64 = $H::new(x).into();
+                let f: f32 = $H::new(x).into();
+                m.evals(2);
+                if g.to_bits() != s.to_bits() || !(((f as f64) - s).abs() <= 1.01 * ulp32(s as f32) as f64) {
+                    m.violate(hname, "f64_from_hue_for_float", json!({"bits": format!("{:#018x}", x.to_bits()), "x": fjson(x)}), json!({"as_f32": fjson(f as f64), "as_f64": fjson(g)}), json!({"signed": fjson(s)}), "");
+                }
                 let (_, ex) = frexp_exp(x);
                 m.cell(pvmon::rng::mix(pvmon::rng::hash_str(hname), (ex + 2000) as u64));
                 if !(worst <= 2.0) {
